@@ -232,6 +232,32 @@ func runC12(env *Env) {
 				fmt.Fprintf(&src, "out.push(d.%s(%s)); out.push(d.getTime());", s.name, strings.Join(js, ","))
 				ops[k] = fmt.Sprintf("(%d, %s)", id, Clist(cq))
 			}
+			if r.Intn(4) == 0 {
+				// the same history on a copy of the runtime (or on the original after copying): the other
+				// runtime's Date must keep its time value
+				vm1 := otto.New()
+				o1 := RunJS(vm1, fmt.Sprintf("var d = new Date(%s); 0", start))
+				vm2 := vm1.Copy()
+				run, other := vm2, vm1
+				which := "copy"
+				if r.Intn(2) == 0 {
+					run, other = vm1, vm2
+					which = "original"
+				}
+				hist := strings.Replace(src.String(), fmt.Sprintf("var d = new Date(%s); ", start), "", 1) + `out.join(",")`
+				o2 := RunJS(run, hist)
+				o3 := RunJS(other, "d.getTime()")
+				obs, oth := "!", "!"
+				if o1.Err == nil && o2.Err == nil && o2.Panic == nil {
+					obs = o2.Val.String()
+				}
+				if o3.Err == nil && o3.Panic == nil {
+					oth = o3.Val.String()
+				}
+				env.Add(fmt.Sprintf("CCopy %s %s %s %s", cstart, Clist(ops), Clist(optZList(obs)), optZ(oth)),
+					fmt.Sprintf("copy: new Date(%s) then Copy(); on the %s: %s -> %s ; the other runtime's d.getTime() -> %s", start, which, hist, obs, oth), "set-after-copy", true)
+				continue
+			}
 			src.WriteString(`out.join(",")`)
 			obs := g.js(src.String())
 			env.Add(fmt.Sprintf("CSet %s %s %s", cstart, Clist(ops), Clist(optZList(obs))), fmt.Sprintf("set %s -> %s", src.String(), obs), "set", true)
